@@ -222,7 +222,7 @@ m("m13a", ["C13"], C,
   "            \"iis\": {\"typ\": [int, float], \"opt\": True, \"def\": 1.0e-6},\n            \"rt\": {\"typ\": [int, float], \"opt\": True, \"def\": RT_DEFAULT},\n        },\n    }\n\n    def __init__(\n        self,\n        name: str,\n        *,\n        rs: float = 0.0,\n        ig: float = 0.0,\n        limits: dict = LIMITS_DEFAULT,\n        iis: float = 0.0,\n        rt: float = 0.0,\n    ):\n        self._params = {}\n        self._params[\"name\"] = name\n        self._params[\"rs\"] = abs(rs)\n",
   "PSwitch TOML default for iis differs from the constructor default")
 m("m13b", ["C13"], C,
-  "            if type(pval) not in cls._cparams[\"params\"][key][\"typ\"]:\n",
+  "            ptyp = dict if isinstance(pval, dict) else type(pval)\n            if ptyp not in cls._cparams[\"params\"][key][\"typ\"]:\n",
   "            if not isinstance(pval, tuple(cls._cparams[\"params\"][key][\"typ\"])):\n",
   "type gate uses isinstance: a bool passes as a number")
 m("m13c", ["C13"], C,
@@ -331,6 +331,44 @@ EQUIVALENT = {
             "the mutated branch is never reached with a live state",
     "m16d": "the old group entry is deleted on the line before, so the fallback is always ''",
 }
+
+# ---- second batch: restricted to circumstances the repository's tests do not sample --------
+m("n01a", ["C01"], C,
+  "        i = io + self._ipr._interp(abs(io), abs(vi[pinp]))\n        if phase_conf and phase not in phase_conf:\n            i = self._params[\"iis\"]\n        return i\n",
+  "        i = io + self._ipr._interp(abs(io), abs(vi[pinp]))\n        if pinp > 1:\n            i = io\n        if phase_conf and phase not in phase_conf:\n            i = self._params[\"iis\"]\n        return i\n",
+  "PMux draws no ground current when it runs from its third or fourth input")
+m("n01b", ["C01"], C,
+  "        v = min(abs(self._params[\"vo\"]), max(abs(vi[0]) - self._params[\"vdrop\"], 0.0))\n        if phase_conf and phase not in phase_conf:\n            return 0.0, STATE_OFF\n        if self._params[\"vo\"] >= 0.0:\n            return v, STATE_DEFAULT\n        return -v, STATE_DEFAULT\n",
+  "        v = min(abs(self._params[\"vo\"]), max(abs(vi[0]) - self._params[\"vdrop\"], 0.0))\n        if phase_conf and phase not in phase_conf:\n            return 0.0, STATE_OFF\n        if self._params[\"vo\"] >= 0.0:\n            return v, STATE_DEFAULT\n        return -min(abs(self._params[\"vo\"]), abs(vi[0])), STATE_DEFAULT\n",
+  "a negative LinReg ignores its dropout voltage")
+m("n02a", ["C02"], C,
+  "            loss = abs(ii * vi * (1.0 - self._ipr._interp(abs(io), abs(vi))))\n",
+  "            loss = abs(ii * vi * (1.0 - self._ipr._interp(abs(io), abs(vi)))) if vi > 0 else abs(\n                io * self._params[\"vo\"] * (1.0 / self._ipr._interp(abs(io), abs(vi)) - 1.0)) * 0.99\n",
+  "Converter loss 1 % low on a negative input rail")
+m("n02b", ["C02"], C,
+  "        pi = abs(vi * ii)\n        tr = pi * self._params[\"rt\"]\n",
+  "        pi = abs(vi * ii)\n        tr = pi * self._params[\"rt\"] if not (self._params[\"loss\"] and ta < 0) else 0.0\n",
+  "a load counted as loss does not heat up at sub-zero ambient")
+m("n04a", ["C04"], C,
+  "        if phase_conf and phase not in phase_conf:\n            i = self._params[\"iis\"]\n        return i\n\n    def _solv_outp_volt(self, vi, ii, io, phase, phase_conf=[], pstate={}):\n        \"\"\"Calculate PMux",
+  "        if phase_conf and phase not in phase_conf:\n            i = self._params[\"iis\"] if pinp == 0 else 0.0\n        return i\n\n    def _solv_outp_volt(self, vi, ii, io, phase, phase_conf=[], pstate={}):\n        \"\"\"Calculate PMux",
+  "an inactive PMux draws its sleep current only from its first input")
+m("n05a", ["C05"], C,
+  "        for i in range(len(pstate[\"off\"])):\n",
+  "        for i in range(min(len(pstate[\"off\"]), 3)):\n",
+  "PMux never selects its fourth input")
+m("n05b", ["C05"], SY,
+  "                if abs(vin[i]) != 0.0:\n                    idx = i\n",
+  "                if abs(vin[i]) != 0.0 and (i < 2 or vin[i] > 0.0):\n                    idx = i\n",
+  "PMux domain ignores a negative third/fourth input")
+m("n10a", ["C10"], C,
+  "        return np.interp(np.abs(x), self._x, self._fx)\n",
+  "        return np.interp(np.abs(x), self._x, self._fx) if len(self._x) < 6 else np.interp(\n            np.abs(x), self._x[:-1], self._fx[:-1])\n",
+  "1-D tables with six io points lose their last point")
+m("n10b", ["C10"], C,
+  "        yc = min(max(y, self._ymin), self._ymax)\n",
+  "        yc = min(max(y, self._ymin), self._ymax) if x <= self._xmax else self._ymin\n",
+  "2-D lookup beyond the largest io uses the lowest vi row")
 
 
 def run(cmd, env=None, timeout=3600):
